@@ -228,6 +228,18 @@ RECIPES = [
 ]
 
 
+def all_recipes(prop):
+    """recipes of one property: the table above plus an optional per-property module verifier/recipes_cXX.py (RECIPES in the same format)"""
+    out = [r for r in RECIPES if r[0] == prop]
+    try:
+        import importlib
+        m = importlib.import_module(f"verifier.recipes_{prop.lower()}")
+        out += [r for r in m.RECIPES if r[0] == prop]
+    except ImportError:
+        pass
+    return out
+
+
 def _copy_tree(dst):
     src = core.REPO
     shutil.copytree(os.path.join(src, "pyyeti"), os.path.join(dst, "pyyeti"),
@@ -283,9 +295,8 @@ def thorough(ctx):
     base = tempfile.mkdtemp(prefix="verif_selftest_")
     try:
         jobs = []
-        for r in RECIPES:
-            if r[0] == prop:
-                jobs.append((r[0], r[1], r[2], r[3], r[4], r[5], r[6], None, base))
+        for r in all_recipes(prop):
+            jobs.append((r[0], r[1], r[2], r[3], r[4], r[5], r[6], None, base))
         sd = os.path.join(core.VERIF, "seeded")
         if os.path.isdir(sd):
             for d in sorted(os.listdir(sd)):
